@@ -1,7 +1,12 @@
 import MM.Props.Exhaustive
 import MM.Props.Greedy
+import MM.Props.SearchTie
 #print axioms MM.Search.notSat_false_iff
 #print axioms MM.Search.C02_exhaustive_evaluated
 #print axioms MM.Search.C02_exhaustive
 #print axioms MM.Search.C02_greedy
 #print axioms MM.Search.C02_none_imposes_nothing
+#print axioms MM.Search.tie_share
+#print axioms MM.Search.tie_budget_screen
+#print axioms MM.Search.tie_volume
+#print axioms MM.Search.tie_geo_ratio
